@@ -25,6 +25,7 @@ import (
 	"os"
 	"path/filepath"
 	"regexp"
+	"sort"
 	"strconv"
 	"strings"
 	"sync"
@@ -50,6 +51,7 @@ func init() {
 	if os.Getenv(c13FakeEnv) == "" {
 		return
 	}
+	c13FakeLogArgv()
 	switch filepath.Base(os.Args[0]) {
 	case "nm":
 		c13FakeNMMain()
@@ -61,6 +63,16 @@ func init() {
 		return
 	}
 	os.Exit(0)
+}
+
+// c13FakeLogArgv appends "tool<TAB>args…" to argv.log next to the fake tool (O_APPEND: one write).
+func c13FakeLogArgv() {
+	f, err := os.OpenFile(filepath.Join(filepath.Dir(os.Args[0]), "argv.log"), os.O_APPEND|os.O_CREATE|os.O_WRONLY, 0o644)
+	if err != nil {
+		return
+	}
+	f.WriteString(filepath.Base(os.Args[0]) + "\t" + strings.Join(os.Args[1:], "\t") + "\n")
+	f.Close()
 }
 
 type c13FakeSym struct {
@@ -868,6 +880,67 @@ func (e *c13Env) runSymHist(cs *c13SymCase) {
 	}
 }
 
+// c13ToolContract: the invocations pprof documents for its external tools. The parsers depend on
+// the output format these flags select; any other flag set (e.g. --demangle, which puts spaces into
+// names of a space-separated format) breaks the contract between pprof and the tool.
+var c13ToolContract = map[string][]string{
+	"nm":              {"--format=posix --numeric-sort --print-size", "--numeric-sort"},
+	"addr2line":       {"-aif -e"},
+	"llvm-symbolizer": {"--inlining --output-style=JSON -demangle=false"},
+}
+
+var c13FlagSynonyms = map[string]string{"-n": "--numeric-sort", "-v": "--numeric-sort", "-S": "--print-size", "-P": "--format=posix",
+	"-fposix": "--format=posix", "--portability": "--format=posix", "--format=bsd": "", "-fbsd": "", "-B": "", "--no-demangle": "",
+	"-i": "--inlining", "--inlines": "--inlining", "--demangle=false": "-demangle=false", "-afi": "-aif", "-fai": "-aif", "-fia": "-aif", "-iaf": "-aif", "-ifa": "-aif"}
+
+// checkToolArgv reads (and empties) the argv logs of the fake tools and checks every invocation.
+func (e *c13Env) checkToolArgv(cs *c13SymCase) {
+	c := e.c
+	s := e.sym
+	if s == nil {
+		return
+	}
+	for _, dir := range []string{s.toolsA, s.toolsL} {
+		logf := filepath.Join(dir, "argv.log")
+		b, err := os.ReadFile(logf)
+		if err != nil {
+			continue
+		}
+		os.Remove(logf)
+		for _, line := range strings.Split(strings.TrimSpace(string(b)), "\n") {
+			f := strings.Split(line, "\t")
+			if len(f) == 0 || f[0] == "" {
+				continue
+			}
+			tool := f[0]
+			var flags []string
+			for _, a := range f[1:] {
+				if !strings.HasPrefix(a, "-") {
+					continue // the file operand
+				}
+				if syn, ok := c13FlagSynonyms[a]; ok {
+					a = syn
+				}
+				if a != "" {
+					flags = append(flags, a)
+				}
+			}
+			sort.Strings(flags)
+			got := strings.Join(flags, " ")
+			ok := false
+			for _, want := range c13ToolContract[tool] {
+				if got == want {
+					ok = true
+				}
+			}
+			c.Res.Hit("tool-argv:" + tool + " " + got)
+			if !ok {
+				c.Violation("C13/tool-contract/"+tool+"-argv", fmt.Sprintf("%s was invoked with flags [%s]; pprof's parsers are written for %q — an output-format flag outside that contract changes what they read (e.g. --demangle puts spaces into the names of nm's space-separated format, and such lines are dropped)", tool, strings.Join(f[1:], " "), c13ToolContract[tool]), cs)
+			}
+		}
+	}
+}
+
 var c13NoMatchRx = regexp.MustCompile(`^\x00nothing matches this$`)
 
 // checkSymbols: ObjFile.Symbols (the `nm -n` parser behind -disasm / weblist).  Direct oracle: a
@@ -997,6 +1070,7 @@ func (e *c13Env) runSymStreams(r *Rng) {
 			cs := genSymCase(r, st.mode)
 			c.Res.Count(fmt.Sprint("symhist ", *cs), len(cs.Funcs) >= 2 && len(cs.Biases) >= 2)
 			e.runSymHist(cs)
+			e.checkToolArgv(cs)
 		}
 	}
 	// boundary sweeps: every symbol's first/second/last bytes and its neighbours, one case per chain
@@ -1006,6 +1080,7 @@ func (e *c13Env) runSymStreams(r *Rng) {
 			c.Res.Count(fmt.Sprint("symhist-boundary ", *cs), true)
 			c.Res.Hit("sym:boundary-sweep-cases," + mode)
 			e.runSymHist(cs)
+			e.checkToolArgv(cs)
 		}
 	}
 	// name-length and output-format adversaries: every length once per run, chains and formats rotate
@@ -1018,6 +1093,7 @@ func (e *c13Env) runSymStreams(r *Rng) {
 			c.Res.Count(fmt.Sprint("symhist-long ", *cs), true)
 			c.Res.Hit(fmt.Sprintf("sym:name-length=%d,%s", n, mode))
 			e.runSymHist(cs)
+			e.checkToolArgv(cs)
 		}
 	}
 	// concurrent variant: few cases, more lookups, 4–8 goroutines on the shared handles
@@ -1040,6 +1116,7 @@ func (e *c13Env) runSymStreams(r *Rng) {
 			}
 			c.Res.Hit("sym:concurrent-cases," + st.mode)
 			e.runSymHist(cs)
+			e.checkToolArgv(cs)
 		}
 	}
 }
